@@ -117,3 +117,15 @@ package certgen
 //@ func ExtractIPNetsFromIPRestrictedX509
 //@   requires userCert != nil
 //@   nopanic @C10,C11
+// C11: what is read back from a certificate never widens it: every netblock returned is the decoder's reading of a
+// block of an IPv4 family parsed from the certificate's first delegation extension
+//@ pure func certifiedBlock(l []IpAdressFamily, n net.IPNet) bool = (exists i int :: 0 <= i && i < len(l) && bytesEq(l[i].AddressFamily, ipV4FamilyEncoding) && (exists j int :: 0 <= j && j < len(l[i].Addresses) && same(n, blockOf(l[i].Addresses[j]))))
+//@ opaque func certifiedBlocks(cert *x509.Certificate, nets []net.IPNet) bool = (exists k int :: firstDelegationExt(cert, k) && (forall n int :: 0 <= n && n < len(nets) ==> certifiedBlock(parsedFamilies(cert.Extensions[k].Value), nets[n])))
+//@ func ExtractIPNetsFromIPRestrictedX509
+//@   intmode math
+//@   reveal certifiedBlocks
+//@   atcall encoding/asn1.Unmarshal establishes (b []byte, val any) :: (exists k int :: firstDelegationExt(userCert, k) && same(b, userCert.Extensions[k].Value))   #C11.read-back-parses-the-first-delegation-extension @C11
+//@   ensures ret1 == nil ==> certifiedBlocks(userCert, ret0)   #C11.read-back-blocks-are-certified-blocks @C11
+//@   loop 1 (extension *pkix.Extension, rangeindex int) invariant extension == nil && (forall k2 int :: 0 <= k2 && k2 <= rangeindex ==> !oidEq(userCert.Extensions[k2].Id, oidIPAddressDelegation))   #C11.read-back-extension-scan @C11
+//@   loop 2 (ipAddressFamilyList []IpAdressFamily, rvalue []net.IPNet) invariant (forall n int :: 0 <= n && n < len(rvalue) ==> certifiedBlock(ipAddressFamilyList, rvalue[n]))   #C11.read-back-so-far @C11
+//@   loop 3 (ipAddressFamilyList []IpAdressFamily, rvalue []net.IPNet) invariant (forall n int :: 0 <= n && n < len(rvalue) ==> certifiedBlock(ipAddressFamilyList, rvalue[n]))   #C11.read-back-so-far-inner @C11
